@@ -62,19 +62,19 @@ CHECKS = {
     "C05": dict(
         engine="corr-trace",
         technique='Coq proof (clean decision of a node with removable states implies every involved worker is done with all dependants and nobody runs it; removal requests contain only states marked f., selected, non-net; default pool filter never copies) + trace refinement; timing of removals against running/pending dependants is a monitor',
-        text=("Proved for all graphs/states: C05_unset_only_after_dependants (decision level), C05_only_if_asked, C05_default_filter_inert. Checked on the real code: every door request (unset/get) equals the model's; no state is removed while a dependant that could fetch it is running or pending; nothing is requested at all when no state is marked and the filter is reuse/block. PARTIAL: 'after every dependant finished' over whole traces is the monitor, the theorem is about the decision."),
+        text=("Proved for all graphs/states: C05_unset_only_after_dependants (decision level), C05_only_if_asked, C05_default_filter_inert; for EVERY schedule (Proofs/TraverseDoor.v, C05_removals_only_marked_all_schedules): each removal request comes from the node's own worker, in the atomic section of that worker's positive clean decision on that node, and names only states of that node marked for removal (unset_mode f.), of a selected vm, not net states. Checked on the real code: every door request (unset/get) equals the model's; no state is removed while a dependant that could fetch it is running or pending; nothing is requested at all when no state is marked and the filter is reuse/block. PARTIAL: 'after every dependant finished' over whole traces is the monitor, the theorem is about the decision."),
         note=TRAV_NOTE,
         design="§5 C05"),
     "C08": dict(
         engine="corr-trace",
         technique="Coq proof by invariant over resume/run_schedule (for EVERY graph, pool population and schedule each execution is started by a worker whose id occurs in the node's name; foreign nodes make the decision fail; picks go to own or flat neighbours) + trace refinement incl. the pulled get_location lists",
-        text=("Proved: C08_own_worker for all schedules (the code's ownership test = worker id is a substring of the name; the harness evaluates on every configuration that this coincides with 'parsed for that worker'). Checked on the real code at every test start: started by the worker of the node's net, connection parameters are that worker's, every named location belongs to a worker with a PASS result on the producing class and comes with that worker's access parameters; the pulled locations equal the model's (compared as sets)."),
+        text=("Proved: C08_own_worker for all schedules (the code's ownership test = worker id is a substring of the name; the harness evaluates on every configuration that this coincides with 'parsed for that worker'); C08_named_sources_are_producers for all schedules (Proofs/TraverseLoc.v: every worker named in the get locations an execution is started with has a PASS result on one of that test's parents - PASS results never disappear and locations are only ever added from them). Checked on the real code at every test start: started by the worker of the node's net, connection parameters are that worker's, every named location belongs to a worker with a PASS result on the producing class and comes with that worker's access parameters; the pulled locations equal the model's (compared as sets)."),
         note=TRAV_NOTE,
         design="§5 C08"),
     "C15": dict(
         engine="corr-pure",
         technique="Coq proof (worklist closure of flag_children; list lemmas for the run/remove sets of update on a chain of states) + correspondence: the real update tool under the selftests' job seam vs Model/Tools.v on a separately parsed state graph",
-        text=("Proved: flag_children reaches exactly the nodes connected through child edges (with/without the start node); on a duplicate-free chain update_runs = the segment from from_state to to_state, both included, update_unsets = exactly what follows to_state. Checked: intertest_setup.update for (from,to) pairs along vm1's states x worker sets runs exactly those tests and removes exactly the states derived from to_state, touches no other vm, and rejects unknown states; updates of 2-3 vms on 2-4 workers (randomly delayed stub tests) execute every path test exactly once across all workers. PARTIAL: the state graph given to the model comes from the real parser."),
+        text=("Proved: flag_children reaches exactly the nodes connected through child edges (with/without the start node); on a duplicate-free chain update_runs = the segment from from_state to to_state, both included, update_unsets = exactly what follows to_state. Checked: intertest_setup.update for (from,to) pairs along vm1's states x worker sets runs exactly those tests and removes exactly the states derived from to_state, touches no other vm, and rejects unknown states; updates of 2-3 vms on 2-4 workers (randomly delayed stub tests) execute every path test exactly once across all workers; updates of a vm selected without variant restriction (CentOS and Fedora) execute the path once for every variant. PARTIAL: the state graph given to the model comes from the real parser."),
         note=COMMON_NOTE + "The selftests' job seam (mock job, stub run_test_task with random short delays, recording door) stands for the avocado job and the remote state control.",
         design="§5 C15"),
     "C20": dict(
